@@ -403,6 +403,40 @@ func run(t *testing.T, tape *simrt.Tape) *hx.Outcome {
 			}))
 		}
 		mt.Join(ts...)
+		// quiet period: once the registry has stopped failing, every regular file reads in full and equals the
+		// tar - whatever a failed transfer, an aborted cache write or an eviction left behind before
+		if !s.Failed() && !calm {
+			reg.NoFaults, reg.Down = true, false
+			reg.Cfg.LatencyDen, reg.Cfg.ExpireDen = 0, 0
+			mt.Sleep(40 * time.Second) // requests that were stalled or are being retried have ended by now
+			sweep := common.NewTree(rn)
+			model.Walk(func(n *common.MNode) {
+				if s.Failed() || n.Type != tar.TypeReg || n.Path == "" {
+					return
+				}
+				nd, _, errno := sweep.Lookup(n.Path)
+				if errno != 0 {
+					s.Fail("quiet-lookup-failed", "with the registry healthy again Lookup(%q) fails: %v", n.Path, errno)
+					return
+				}
+				fh, errno := sweep.Open(nd)
+				if errno != 0 {
+					s.Fail("quiet-read-failed", "with the registry healthy again Open(%q) fails: %v", n.Path, errno)
+					return
+				}
+				b, errno, _ := sweep.Read(fh, 0, len(n.Data)+1)
+				sweep.Release(fh)
+				if errno != 0 {
+					st, _ := sweep.StateJSON()
+					s.Fail("quiet-read-failed", "with the registry healthy again reading %q (%d bytes) still fails: %v; state file: %s", n.Path, len(n.Data), errno, st)
+					return
+				}
+				if !bytes.Equal(b, n.Data) {
+					s.Fail("wrong-bytes", "quiet period: %q read in full differs from the tar (%d bytes returned, %d expected)", n.Path, len(b), len(n.Data))
+				}
+				out.Counters["quiet_sweep_reads"]++
+			})
+		}
 		if !s.Failed() {
 			l.Done()
 		}
